@@ -129,11 +129,16 @@ impl ClientInvTsx {
                     }
                 }
             }
-            State::Init | State::Proceeding => {
+            State::Init => {
                 match timeout_at(self.timeout.into(), registration.receive_response()).await {
                     Ok(msg) => self.handle_msg(msg).await,
                     Err(_) => Err(Error::RequestTimedOut),
                 }
+            }
+            State::Proceeding => {
+                // Timer B only runs until the first provisional response has been received
+                let msg = registration.receive_response().await;
+                self.handle_msg(msg).await
             }
             State::Accepted => {
                 match timeout_at(self.timeout.into(), registration.receive_response()).await {
